@@ -62,6 +62,18 @@ fn emit(reason: &str) {
 extern "C" {
     fn signal(signum: i32, handler: usize) -> usize;
     fn _exit(code: i32) -> !;
+    fn mallopt(param: i32, value: i32) -> i32;
+}
+
+/// The explorers allocate and free millions of small queues on 16 threads: keep glibc from
+/// trimming and re-growing its arenas all the time (measured: 130 k mprotect calls in 90 s).
+pub fn tune_allocator() {
+    #[cfg(not(miri))]
+    unsafe {
+        mallopt(-1, 1 << 30); // M_TRIM_THRESHOLD
+        mallopt(-2, 64 << 20); // M_TOP_PAD
+        mallopt(-3, 1 << 30); // M_MMAP_THRESHOLD
+    }
 }
 
 extern "C" fn on_signal(sig: i32) {
